@@ -24,6 +24,7 @@ RULE = ("seeded datasets (x: 2-8 points, z: 1-14 numeric/str values, optional ro
         "heatmap, auto_lineplot, auto_scatter, auto_histogram, auto_heatmap) x options (colors, colormap, reverse, log norm, markers, lines, "
         "legend/colorbar, error / colour variables with holes of their own, explicit vmin/vmax incl. 0, colour quantities whose minimum is exactly 0, log axes, zlabels, legend_reverse, legend_marker_alpha, spans, row/col grids); scatter colour variables on a logarithmic colour scale; series of 52-75 points with a glyph check; heat maps under a non-default rcParams pcolor.shading and with exactly one colour bar; colour maps given as Colormap objects; distinct by (kind, shape, "
         "options); non-trivial when >= 2 series or a 2-d mesh is drawn")
+RULE += '; a quarter of the lineplot / scatter / histogram / heatmap figures and grids drawn from the dataset with its dimensions renamed to tolerance / method / drop'
 ASSUMPTIONS = [
     "matplotlib backend only (Agg); artists are inspected, pixels are not",
     "the colormap objects are matplotlib's own (viridis, plasma, ...) or xyzpy's xyz_colormaps(None) for the default map (trusted lookup)",
